@@ -78,7 +78,8 @@ class PreloadsSim(purity.PuritySim):
             "p_evict": r.choice([0.03, 0.08, 0.15]) if fault else 0.0,
             "p_rng": r.choice([0.02, 0.05]) if fault else 0.0,
             "p_solver": r.choice([0.0, 0.04, 0.08]) if fault else 0.0,
-            "profile_on": fault and r.random() < 0.2,
+            "profile_on": fault and r.random() < 0.4,
+            "profile_repeats": r.choice([1, 2, 2, 3]),  # general.profiling.repeats: every profiled function body runs that many times
             "conf": {k: r.choice(v) for k, v in purity.CONF_KNOBS.items() if r.random() < 0.5},
             "templates": ["preloads"],
         }
@@ -359,7 +360,10 @@ class PreloadsSim(purity.PuritySim):
                 self.report(vk, tn, label, cond, compare.describe(expected)[:240], compare.describe(tree)[:240] + " -- " + bad)
         # ---- P2: bit-identical among clients of the same formalism sharing P (only while P's slots are fixed)
         if not self.harvested and not self.knobs.get("p_evict") and target in self.client_invs:
-            k2 = (tn, label, self.world.specs.get(target, {}).get("dataset", {}).get("$node") == self.meta.get("DX"))
+            ds_of = self.world.specs.get(target, {}).get("dataset", {}).get("$node")
+            # bit-identity is promised among inversions on the same inputs: the other-image interface and a re-derived dataset (whose
+            # kernel was normalised once more, last-bit different) are inputs of their own
+            k2 = (tn, label, ds_of if (ds_of == self.meta.get("DX") or str(ds_of).startswith("dsd")) else None)
             dg = compare.digest(tree)
             if k2 in self.first:
                 self.stats["checked"] += 1
@@ -413,6 +417,13 @@ class PreloadsSim(purity.PuritySim):
             clients.append({"name": f"i{c}", "inv": None, "fit": None, "queue": [], "refitted": 0})
         harvest_at = rs.randrange(3, 15) if k.get("harvest") else None
         idle = 0
+        # once per run (one run in three) the dataset is re-derived in mid-history - apply_over_sampling with the scheme it already has -
+        # and inversions built afterwards may use the derived dataset: whatever the parent had computed by then must not leak into it
+        # (apply_over_sampling re-normalises the kernel, so for a kernel used as given the derived dataset is a DIFFERENT dataset: the
+        # preloads computed for the parent do not apply to it and its inversions are built without them - the factory's choice between
+        # formalisms must still not change values)
+        rederive_at = rs.randrange(4, 25) if rs.random() < 0.33 else None
+        cur_ds = m["D"]
         while len(self.schedule) < k["n_ops"] and idle < 200:
             u = rf.random()
             if u < k["p_evict"]:
@@ -437,6 +448,16 @@ class PreloadsSim(purity.PuritySim):
                 harvest_at = None
                 self.gen_harvest(rs)
                 continue
+            if rederive_at is not None and len(self.schedule) >= rederive_at:
+                rederive_at = None
+                did = self.new_node_id("dsd")
+                over = {"$over_dataset": {"pixelization": int(m.get("sub", 1))}}
+                dspec = {"id": did, "kind": "derive", "src": {"$node": m["D"]}, "q": {"t": "call", "name": "apply_over_sampling", "kw": {"over_sampling": over}}}
+                self.apply({"op": "node", "client": "deriver", "node": dspec})
+                if did in env:
+                    cur_ds = did
+                    self.probe("dataset_rederived_mid_history")
+                continue
             client = rs.choice(clients)
             if client["queue"]:
                 self.apply(client["queue"].pop(0))
@@ -450,12 +471,17 @@ class PreloadsSim(purity.PuritySim):
                 if ds_id != m["D"]:
                     self.probe("client_uses_dataset_interface")
                 ref_ds = m["D"]
+                if cur_ds != m["D"] and cur_ds in env and ds_id == m["D"] and rs.random() < 0.6:
+                    ds_id = ref_ds = cur_ds
                 if m.get("DX") and m["DX"] in env and not self.harvested and rs.random() < 0.4:
                     # same noise / PSF / mask / w-tilde objects, another image: its reference is the no-preload mapping inversion of THAT image
                     ds_id = ref_ds = m["DX"]
                     self.probe("client_uses_other_image_same_tables")
                 spec = {"id": nid, "kind": "inversion", "dataset": {"$node": ds_id}, "objs": [{"$node": o} for o in objs],
                         "settings": {"$node": m["st_w"] if use_w else m["st_m"]}, "preloads": {"$node": m["P"]}, "profile": bool(k.get("profile_on") and rs.random() < 0.5)}
+                if str(ds_id).startswith("dsd") and not m.get("psf_normalised"):
+                    del spec["preloads"]
+                    self.probe("derived_dataset_with_other_kernel_uses_no_preloads")
                 refid = "ref_" + nid
                 rspec = {"id": refid, "kind": "inversion", "dataset": {"$node": ref_ds}, "objs": [{"$node": o} for o in objs], "settings": {"$node": m["st_m"]}}
                 self.ref_of[nid] = refid
@@ -565,7 +591,7 @@ RULE = (
 )
 STATE_MEASURE = "distinct (inversion type, frozenset of populated cached-property names) pairs observed at a read"
 EXPECTED_PROBES = ["p2_compared", "solver_failure_then_recovery", "harvest:set_curvature_matrix", "harvest:set_w_tilde_imaging", "harvest:set_linear_func_inversion_dicts",
-                   "client_uses_dataset_interface", "client_uses_other_image_same_tables"]
+                   "client_uses_dataset_interface", "client_uses_other_image_same_tables", "dataset_rederived_mid_history"]
 STUBS = purity.STUBS
 ASSUMPTIONS = [
     "P1/P4 compare against the mapping formalism WITHOUT preloads, built from raw bytes in the isolated reference executor; tolerances relative to the reference max-abs: 1e-10 for data vector / curvature / regularization matrices, "
